@@ -126,6 +126,21 @@ def gen_loop():
         tpc_marks = prev_value("Loop.lean", "tpcMarksSuspend", "false") == "true"
     # the state -> event_loop_info table of MHD_connection_update_event_loop_info (unconditional cases only)
     csrc = src("src/microhttpd/connection.c")
+    # MHD_connection_handle_idle, case FULL_REPLY_SENT: is connection_reset() followed by an unconditional `continue` (the state
+    # loop goes on with the new state, so bytes of the next request that are already buffered are looked at in the same call)?
+    ib = _func_body(csrc, "MHD_connection_handle_idle") or ""
+    k = ib.find("case MHD_CONNECTION_FULL_REPLY_SENT:")
+    k = ib.find("connection_reset (", k) if k >= 0 else -1
+    if k >= 0:
+        depth, j = 0, ib.index("(", k)
+        while j < len(ib):
+            depth += ib[j] == "("; depth -= ib[j] == ")"
+            if depth == 0:
+                break
+            j += 1
+        reset_continues = bool(re.match(r"\s*;\s*continue\s*;", ib[j + 1:j + 80]))
+    else:
+        reset_continues = prev_value("Loop.lean", "replySentContinues", "true") == "true"
     body = _func_body(csrc, "MHD_connection_update_event_loop_info") or ""
     table, labels = {}, []
     for line in body.splitlines():
@@ -161,6 +176,8 @@ def gen_loop():
     out += "def tpcRechecksSuspend : Bool := %s\n" % ("true" if tpc_recheck else "false")
     out += "/-- … and remembers a suspension at the moment its own handler suspends (not only when it finds `suspended` set at the loop head) -/\n"
     out += "def tpcMarksSuspend : Bool := %s\n" % ("true" if tpc_marks else "false")
+    out += "/-- MHD_connection_handle_idle goes on with the state loop (`continue`) after connection_reset() in case FULL_REPLY_SENT -/\n"
+    out += "def replySentContinues : Bool := %s\n" % ("true" if reset_continues else "false")
     out += "/-- states for which MHD_connection_update_event_loop_info unconditionally answers READ / WRITE / PROCESS -/\n"
     for cls, nm in (("READ", "readStates"), ("WRITE", "writeStates"), ("PROCESS", "processStates")):
         if table:
@@ -1131,7 +1148,8 @@ class Spec:
                          "Mhd.C06.tpc_invariant_reachable", "Mhd.C06.tpc_no_lost_wakeup",
                          "Mhd.C06.tpc_resume_is_served", "Mhd.C06.tpc_progress_one_iteration", "Mhd.C06.tpc_progress",
                          "Mhd.C06.tpc_no_recheck_loses_wakeup", "Mhd.C06.tpc_unnoticed_resume_loses_wakeup",
-                         "Mhd.C06.tpc_unnoticed_resume_breaks_invariant", "Mhd.C06.connsm_wait_class_in_table"]
+                         "Mhd.C06.tpc_unnoticed_resume_breaks_invariant", "Mhd.C06.connsm_wait_class_in_table",
+                         "Mhd.C06.code_reply_sent_continues", "Mhd.C06.reply_sent_leaves_no_unexamined_input", "Mhd.C06.reply_sent_break_loses_wakeup"]
     trusted_base = ["Lean 4 kernel", "axioms: propext, Classical.choice, Quot.sound at most (audited per theorem)",
                     "hand-written loop model lean/Mhd/Model/Loop.lean, LoopRounds.lean, LoopTpc.lean tied to daemon.c by this run's correspondence "
                     "(handler-call order, list contents and order, flags, epoll bits, fd sets, hint class predicted for every logged round)",
@@ -1139,7 +1157,7 @@ class Spec:
                     "cross-checked by the correspondence: a wrong flag shows up as a call-order difference)",
                     "harness/h_loop.c (link-time wrappers around the handler entry points, white-box snapshots, interposed epoll_wait), gcc, ASan/UBSan",
                     "the per-connection step is a parameter of the model (Ops); the theorems assume the law records Laws (Proofs/LoopCH), "
-                    "LawsEp (LoopEpoll), ProgLaws / LawOpen (LoopProgress); frame, idle_where, idle_closed/LawOpen, read_force, idle_quiet are "
+                    "LawsEp (LoopEpoll), ProgLaws / LawOpen (LoopProgress); frame, idle_where, idle_closed/LawOpen, read_force, idle_quiet, idle_buffered are "
                     "monitored on every logged handler call, idle_sync and ProgLaws are what the independent oracle tests end-to-end"]
     assumptions = ["event loops in the correspondence: external select, external epoll, MHD_poll_all with the internal thread and thread-per-connection "
                    "(poll) — the last two in lock-step through an interposed, gated poll(); thread-per-connection with select() and the thread pool "
